@@ -6,14 +6,38 @@
 package main
 
 import (
+	"encoding/json"
 	"fmt"
 	"os"
 	"os/signal"
 	"syscall"
 
 	"verif/internal/core"
+	"verif/internal/rtsim"
 	"verif/internal/schedsim"
 )
+
+// replay dispatches a replay file to the engine that wrote it.
+func replay(path string) int {
+	data, err := os.ReadFile(path)
+	if err != nil {
+		fmt.Fprintln(os.Stderr, "replay:", err)
+		return 2
+	}
+	var head struct {
+		Property string `json:"property"`
+	}
+	if err := json.Unmarshal(data, &head); err != nil {
+		fmt.Fprintln(os.Stderr, "replay:", err)
+		return 2
+	}
+	switch head.Property {
+	case "C17":
+		return rtsim.ReplayFile(path)
+	default:
+		return schedsim.ReplayFile(path)
+	}
+}
 
 func usage() {
 	fmt.Fprintln(os.Stderr, "usage: verifctl check <C08|C13|C14|C15|C17> [--tier quick|thorough] | replay <file> | selftest")
@@ -52,6 +76,8 @@ func main() {
 		seed := core.Seed()
 		fmt.Printf("VERIF_SEED=%d property=%s tier=%s\n", seed, id, tier)
 		switch id {
+		case "C17":
+			code = rtsim.CheckC17(tier, seed)
 		case "C13":
 			code = schedsim.CheckC13(schedsim.C13Options{Tier: tier, Seed: seed})
 		case "C14":
@@ -65,7 +91,7 @@ func main() {
 		if len(os.Args) < 3 {
 			usage()
 		}
-		code = schedsim.ReplayFile(os.Args[2])
+		code = replay(os.Args[2])
 	default:
 		usage()
 	}
